@@ -287,8 +287,9 @@ def judge(inst, out):
     tol, how = dist_tol(inst)
     if not out["dist"] <= tol:
         return f"status 0 / success, but the returned point is at distance {out['dist']!r} > {tol:.3g} = {how} from the certified unique minimiser"
-    if inst["family"] == "ball" and not out["gap"] <= GAP_RADII * RADIUS_FINAL * float(inst["nu"]):
-        return f"status 0 / success, but the objective exceeds the certified minimum by {out['gap']!r}"
+    # the objective gap of the ball family is reported in the evidence (worst gap in final radii) but is not part of the
+    # verdict: the property speaks of the DISTANCE to the minimiser, and the distance allowed for this family is already
+    # the one a gap of 10 final radii implies on the curved boundary (Lean: ball_distance)
     return None
 
 
@@ -332,6 +333,15 @@ def run(chk, rng, replay=None):
     else:
         n = 400 if chk.tier == "quick" else 20000
         insts = [gen_instance(rng, FAMILIES[i % 5]) for i in range(n)]
+        # the only family with a CURVED constraint is the one that takes the linearly constrained tangential solver through
+        # its restarts on linearised inequalities; a defect there shows on about 1 % of its instances (seeded change
+        # C04-6), so the family gets a share of its own, n >= 2
+        extra = []
+        while len(extra) < (450 if chk.tier == "quick" else 10000):
+            e = gen_instance(rng, "ball")
+            if e["n"] >= 2:
+                extra.append(e)
+        insts += extra
     ans = exact.driver_alg([cert_line(i) for i in insts])
     certified = []
     rejected = []
@@ -355,6 +365,7 @@ def run(chk, rng, replay=None):
     fails = []
     strat = {}
     worst = {f: 0.0 for f in FAMILIES}
+    worst_gap = [0.0]
     nfev = []
     for inst, out in zip(certified, outs):
         key = f"{inst['family']}/{inst['position']}/n={inst['n']}"
@@ -364,13 +375,15 @@ def run(chk, rng, replay=None):
             fails.append((inst, out, why))
         elif "rel" in out:
             worst[inst["family"]] = max(worst[inst["family"]], out["rel"])
+            if inst["family"] == "ball":
+                worst_gap[0] = max(worst_gap[0], out["gap"] / (RADIUS_FINAL * float(inst["nu"])))
             nfev.append(out["nfev"])
     distinct = len({json.dumps(j, sort_keys=True) for j in js if np.linalg.norm(np.array(j["x0"]) - np.array([float(Fr(v)) for v in j["xstar"]])) > 1e-3})
     chk.coverage.update({
         "evaluations": len(insts), "distinct_nontrivial": distinct,
-        "rule": "random instances of the five reference families (strictly convex quadratics H = M M' + delta I with cond <= 100: unconstrained, bound-constrained with the minimiser interior / on a face / at a vertex / weakly active / interior but close to a face of a side narrower than two initial radii with the start beyond the far face, linear equalities; one-variable quadratics on the interval cut out by bounds and 1-2 linear inequalities; a linear objective over a Euclidean ball given as a nonlinear constraint), n 1..5, dyadic data of order one, x0 at distance 0.1..50 from the minimiser in a random direction, default options. Each minimiser is accepted only through the Lean certificate (exact). An instance passes iff status 0, success, violation <= feasibility_tol (1.5e-8) and |x - x*| <= 1e-4 max(1,|x*|) (ball: objective gap <= 10 radius_final |c| and the distance that gap implies). Non-trivial = distinct instance whose x0 is not the minimiser.",
+        "rule": "random instances of the five reference families (strictly convex quadratics H = M M' + delta I with cond <= 100: unconstrained, bound-constrained with the minimiser interior / on a face / at a vertex / weakly active / interior but close to a face of a side narrower than two initial radii with the start beyond the far face, linear equalities; one-variable quadratics on the interval cut out by bounds and 1-2 linear inequalities; a linear objective over a Euclidean ball given as a nonlinear constraint), n 1..5, dyadic data of order one, x0 at distance 0.1..50 from the minimiser in a random direction, default options. Each minimiser is accepted only through the Lean certificate (exact). An instance passes iff status 0, success, violation <= feasibility_tol (1.5e-8) and |x - x*| <= 1e-4 max(1,|x*|) (ball: the distance that an objective gap of 10 radius_final |c| implies on the curved boundary; the gap itself is reported, not judged). Non-trivial = distinct instance whose x0 is not the minimiser.",
         "samples": js[:2], "certified_minimisers": len(certified), "strata": dict(sorted(strat.items())),
-        "worst_relative_distance_by_family": worst, "median_nfev": float(np.median(nfev)) if nfev else None, "failures": len(fails),
+        "worst_relative_distance_by_family": worst, "worst_objective_gap_of_the_ball_family_in_final_radii": worst_gap[0], "median_nfev": float(np.median(nfev)) if nfev else None, "failures": len(fails),
     })
     chk.assumptions += ["convergence of the floating-point solver is sampled, not proved; the Lean theorems certify the oracle only",
                         "distance tolerance 1e-4 max(1,|x*|) for the quadratic families; for the ball the distance implied (Lean: ball_distance) by an objective gap of 10 final radii; feasibility_tol default sqrt(eps)"]
